@@ -393,7 +393,7 @@ func extName(f *ssa.Function) string {
 func (w *World) externalWrites(f *ssa.Function) map[string]bool {
 	n := f.String()
 	if n == "io.ReadFull" || n == "io.ReadAtLeast" {
-		return map[string]bool{"T:uint8": true, "$consumed": true}
+		return map[string]bool{"T:uint8": true, "$consumed": true, "$rem": true}
 	}
 	if byteWritingExternals[n] {
 		return map[string]bool{"T:uint8": true}
@@ -701,6 +701,67 @@ func addrEscapes(v ssa.Value, depth int) bool {
 		}
 	}
 	return false
+}
+
+// scratchBuffer: v (a make([]T, n) or an array allocation) is only ever indexed, sliced, read, written through, measured
+// or handed to functions that are known not to retain their argument (io.ReadFull, encoding/binary, copy/append as the
+// source): no reference to its memory is ever stored in the heap, returned or captured. Then no value loaded from the
+// heap can point into it.
+func scratchBuffer(v ssa.Value, depth int) bool {
+	if depth > 4 {
+		return false
+	}
+	refs := v.Referrers()
+	if refs == nil {
+		return false
+	}
+	for _, r := range *refs {
+		switch u := r.(type) {
+		case *ssa.DebugRef:
+		case *ssa.UnOp:
+			if u.Op != token.MUL {
+				return false
+			}
+		case *ssa.Store:
+			if u.Val == v {
+				return false
+			}
+		case *ssa.IndexAddr:
+			if !scratchBuffer(u, depth+1) {
+				return false
+			}
+		case *ssa.Slice:
+			if !scratchBuffer(u, depth+1) {
+				return false
+			}
+		case *ssa.Call:
+			if b, ok := u.Call.Value.(*ssa.Builtin); ok {
+				switch b.Name() {
+				case "len", "cap":
+					continue
+				case "copy":
+					continue // copies elements, keeps no reference
+				case "append":
+					if len(u.Call.Args) == 2 && u.Call.Args[1] == v && u.Call.Args[0] != v {
+						continue // source of an append: elements are copied
+					}
+				}
+				return false
+			}
+			c := u.Call.StaticCallee()
+			if c == nil {
+				return false
+			}
+			n := c.String()
+			if n == "io.ReadFull" || strings.HasPrefix(n, "(encoding/binary.littleEndian).") || strings.HasPrefix(n, "(encoding/binary.bigEndian).") {
+				continue
+			}
+			return false
+		default:
+			return false
+		}
+	}
+	return true
 }
 
 func (w *World) src(file string) []byte {
